@@ -1046,6 +1046,7 @@ def rule_r4(repo: Repo, res: Result) -> None:
     config = {p[3]} if len(p) > 3 else set()
     node_events: list[tuple[Event, Term]] = []
     edge_events: list[tuple[Event, Term, Term, Term | None]] = []
+    bulk_nodes: list[tuple[Event, Term]] = []
     for e in tr.events:
         if e.recv is None or e.recv[:2] != graph[:2] or e.kind not in ("call", "mut"):
             continue
@@ -1054,9 +1055,14 @@ def rule_r4(repo: Repo, res: Result) -> None:
         elif e.name == "add_edge" and len(e.args) >= 2:
             inh = next((v for k, v in e.kwargs if k == "inherits"), None)
             edge_events.append((e, e.args[0], e.args[1], inh))
+        elif e.name == "add_nodes_from" and len(e.args) == 1 and not e.kwargs:
+            bulk_nodes.append((e, _mapped_source(e.args[0])))  # every element of the sequence becomes a node
         elif e.name in ("add_nodes_from", "add_edges_from", "add_weighted_edges_from", "update", "add_path"):
             res.undecide("C04.R4", repo.key(e.fi, stmt_of(e.node)) + f" [{e.name}]", "bulk graph construction is not analysed", where(e.fi, e.node))
 
+    for e in tr.events:
+        if e.kind == "call" and e.func[0] == "lib" and e.func[1].startswith("networkx.") and e.func[1].rsplit(".", 1)[-1] in ("add_path", "add_star", "add_cycle", "compose", "relabel_nodes") and any(a[:2] == graph[:2] for a in e.args):
+            res.undecide("C04.R4", repo.key(e.fi, stmt_of(e.node)) + f" [{e.func[1]}]", "bulk graph construction is not analysed", where(e.fi, e.node))
     api = {"importer", "importee", "importer_parent_modules", "importee_parent_modules"}
     opaque = tr.opaque_calls(lambda e: e.func == ("fn", gpm.fq) or e.name in api)
     lost = f"the construction calls `{norm(opaque[0].node, 70)}`, which the analysis cannot follow" if opaque else ""
@@ -1191,21 +1197,51 @@ def rule_r4(repo: Repo, res: Result) -> None:
             child_ok = True
             break
         child_why = why
+    for e, seq_ in bulk_nodes:
+        if names._is_iter_of(seq_, names.modules) and unconditional(e)[0]:
+            child_ok = True
     parents_ok, parents_why = False, "no node is created for the ancestors of a scanned module (packages without own files are missing)"
-    for e, a in node_events:
+    # which elements of the ancestor chain (ancestors + [module], indices 0 .. -1) are made nodes, by whatever means
+    spans: list[tuple[int, int]] = []  # (first index, last index relative to the end) in coordinates of the full chain
+    creations: list[tuple[Event, Term]] = list(node_events)
+    for e, a, b, _inh in edge_events:
+        # networkx makes the ends of an edge nodes itself: an end that the edge creation does not test for presence is created by it
+        tests_ = [t_ for k_ in atoms_of(f_and(e.pc)) if (t_ := sx.atoms.get(k_)) is not None and _is_node_test(t_, graph)]
+        for x in (a, b):
+            if not tests_ or (not any(_is_presence_test(t_, x, graph) for t_ in tests_) and all(any(_is_presence_test(t_, y, graph) for y in (a, b)) for t_ in tests_)):
+                creations.append((e, x))
+    for e, a in creations:
         pos = _sym_pos(names, a)
+        single = None
+        one = _const_element(a)
+        if one is not None and chain_of((one[0], 0, 0, 0)) is not None:
+            pos, single = (one[0], 0, 0, 0), one[1]  # `chain[0]`: one element of the chain
         if pos is None:
             continue
         ch = chain_of(pos)
-        span = _index_span(pos)
-        if ch is None or span is None:
+        if ch is None:
             continue
         okc, why = unconditional(e)
-        last_parent = -2 if ch[1] == "full" else -1
-        if span[0] == 0 and span[1] >= last_parent:
-            parents_ok, parents_why = (True, "") if okc else (parents_ok, why if not parents_ok else parents_why)
-        if ch[1] == "full" and span[1] == -1 and span[0] in (0, 1) and okc:
-            child_ok = True
+        if not okc:
+            if not parents_ok:
+                parents_why = why
+            continue
+        shift = 0 if ch[1] == "full" else -1  # a position in the ancestors alone ends one element before the module
+        if single is not None:
+            spans.append((single, single) if single >= 0 else (single + shift, single + shift))
+        else:
+            f_, l_ = _index_span(pos)
+            spans.append((f_, l_ + shift))
+    for e, seq_ in bulk_nodes:
+        ch = chain_of((seq_, 0, 0, 0))
+        if ch is not None and unconditional(e)[0]:
+            spans.append((0, -1 if ch[1] == "full" else -2))  # `add_nodes_from(chain)`
+    covers_first = any(f_ == 0 for f_, _l in spans)
+    covers_rest = any(f_ <= 1 and l_ <= -1 and l_ >= -2 for f_, l_ in spans)
+    if covers_first and covers_rest:
+        parents_ok, parents_why = True, ""
+    if any(f_ == 0 and l_ == -1 for f_, l_ in spans):
+        child_ok = True  # (a position that starts at the second element does not reach a module without ancestors)
     e0 = direct[0][0] if direct else None
     unknown_nodes = [e_ for e_, a_ in node_events if not names.sources(a_) or any(s_[0].startswith("OTHER") for s_ in names.sources(a_))]
     if not child_ok and not direct and unknown_nodes:
@@ -1247,7 +1283,17 @@ def rule_r4(repo: Repo, res: Result) -> None:
         same_step = [ne for ne, na in node_events if (pn := _sym_pos(names, na)) is not None and _rebase(pn, pa[0]) is not None and _rebase(pn, pa[0])[:3] == pa[:3]]
         if same_step and all(order[id(ne)] > order[id(e)] for ne in same_step) and any(_is_node_test(t_, graph) for k_ in atoms_of(f_and(e.pc)) if (t_ := sx.atoms.get(k_)) is not None):
             problems.append("the hierarchy edge is requested before the parent's node is created: the edge is skipped because one of its ends is not a node yet")
-        cand = (len(problems), e, problems)
+        # _create_edge-style guards drop an edge whose ends are not both nodes: each tested end must have been made a node on the way
+        unknown_end = None
+        for x, px, role in ((a, pa, "parent"), (b, pb, "child")):
+            cov = _end_is_node(sx, names, graph, e, x, px, node_events, bulk_nodes, order, chain_of)
+            if cov is False and (opaque or unknown_nodes or any(u["rule"] == "C04.R4" for u in res.undecided)):
+                cov = None
+            if cov is False:
+                problems.append(f"the {role} end `{show(x, 60)}` of the hierarchy edge is not made a node before the edge is requested (it is only tested with has_node): for the first module below a package chain the edge between two of its ancestors is silently dropped, and a scan that yields a single module two or more levels below the root never gets it")
+            elif cov is None and unknown_end is None:
+                unknown_end = f"cannot tell whether the {role} end `{show(x, 60)}` of the hierarchy edge `{norm(e.node, 60)}` is a node when the edge is requested"
+        cand = (len(problems), e, problems, unknown_end)
         if best is None or cand[0] < best[0]:
             best = cand
     ctag = f"{tag}::ancestors of every scanned module: nodes and consecutive parent->child hierarchy edges"
@@ -1270,14 +1316,107 @@ def rule_r4(repo: Repo, res: Result) -> None:
         else:
             res.add("C04.R4", ctag, False, "no hierarchy (inherits=True) edge is created between a scanned module and its ancestors", where(init, init.node), kind="structural")
         return
-    _n, e, problems = best
+    _n, e, problems, unknown_end = best
     if not parents_ok and opaque and parents_why.startswith("no node is created"):
         res.undecide("C04.R4", ctag, lost, where(opaque[0].fi, opaque[0].node))
+        return
+    if not problems and parents_ok and unknown_end is not None:
+        res.undecide("C04.R4", ctag, unknown_end, where(e.fi, e.node))
         return
     if not parents_ok:
         problems = problems + [f"the ancestor nodes are not created for every scanned module: {parents_why}"]
     ok = not problems
     res.add("C04.R4", ctag, ok, "every scanned module is linked to all its ancestors: each consecutive (ancestor, descendant) pair gets a node and an inherits=True edge" if ok else "scanned modules are not linked to all their ancestors: " + "; ".join(problems), where(e.fi, e.node), kind="structural")
+
+
+def _const_element(a: Term):
+    """(sequence, index) if the name is made from `sequence[<constant index>]` and from nothing else that varies."""
+    found = {(x[1], x[2][1]) for x in subterms(a) if x[0] == "idx" and x[2][0] == "const" and isinstance(x[2][1], int) and not isinstance(x[2][1], bool) and x[1][0] not in ("mcall", "elem", "idx")}
+    if len(found) != 1:
+        return None
+    seq_, index = next(iter(found))
+    return _mapped_source(seq_), index
+
+
+def _end_is_node(sx: SymX, names: "_Names", graph: Term, e: Event, x: Term, px, node_events, bulk_nodes, order, chain_of):
+    """True: the end `x` (at chain position `px`) of the edge event `e` has been made a node whenever the event is reached, or the
+    event does not test it (networkx creates missing ends itself); False: it is tested but none of the node creations seen covers
+    it; None: cannot tell."""
+    f = f_and(e.pc)
+    tests = [t_ for k_ in atoms_of(f) if (t_ := sx.atoms.get(k_)) is not None and _is_node_test(t_, graph)]
+    if not tests:
+        return True
+    mine = [t_ for t_ in tests if _is_presence_test(t_, x, graph)]
+    if not mine:
+        # some node is tested, but not recognisably this end
+        other = [t_ for t_ in tests if not any(_is_presence_test(t_, y, graph) for y in e.args[:2])]
+        return None if other else True
+    k = px[1]
+    span = _index_span(px)
+    ch = chain_of(px)
+    src_x = names.sources(x)
+    raw_x = _chain_pos_raw(src_x[0][1]) if len(src_x) == 1 else None
+    backwards = raw_x is not None and _reversed_of(raw_x[0]) is not None  # the loop walks the chain from its end
+    handed_over = False  # the element was made a node one iteration earlier (as the other end); the first iteration needs its own
+    first_index = span[1] if backwards else span[0]
+
+    def made_before_loop(index: int) -> bool:
+        for ne2, na2 in node_events:
+            if order[id(ne2)] > order[id(e)] or any(l.id == k for l in ne2.loops):
+                continue
+            if index == -1 and ch is not None and (na2 == ch[0] or [s_[1] for s_ in names.sources(na2)] == [ch[0]]):
+                return True
+            one = _const_element(na2)
+            if one is not None and chain_of((one[0], 0, 0, 0)) is not None and one[1] == index and (one[0] == px[0] or index >= 0 and _rebase((one[0], k, 0, 0), px[0]) is not None):
+                return True  # `chain[0]` / `chain[-1]` made a node by itself
+            p2 = _sym_pos(names, na2)
+            if p2 is not None:
+                p2 = p2 if p2[0] == px[0] else _rebase(p2, px[0])
+                if p2 is not None:
+                    s2 = _index_span(p2)  # an earlier loop over (a part of) the chain
+                    if (s2[0] <= index) if index >= 0 else (s2[1] >= index):
+                        return True
+        return False
+
+    for ne, na in node_events:
+        if order[id(ne)] > order[id(e)]:
+            continue
+        pn = _sym_pos(names, na)
+        if pn is not None:
+            pr = pn if pn[0] == px[0] else _rebase(pn, px[0])
+            if pr is None:
+                continue
+            if pr[1] == k:
+                if pr[2] == px[2]:
+                    return True  # the same element, earlier in the same iteration
+                if pr[2] == px[2] + (-1 if backwards else 1):
+                    handed_over = True
+            elif not any(l.id == k for l in ne.loops):
+                sn = _index_span(pr)
+                if sn[0] <= span[0] and sn[1] >= span[1]:
+                    return True  # an earlier loop made all of them nodes
+        elif ch is not None and span == (-1, -1) and na == ch[0]:
+            return True  # the module itself, made a node before its hierarchy is linked
+        elif ch is not None and span == (-1, -1) and [s_[1] for s_ in names.sources(na)] == [ch[0]]:
+            return True
+    for be, seq_ in bulk_nodes:
+        if order[id(be)] > order[id(e)] or any(l.id == k for l in be.loops):
+            continue
+        if seq_ == px[0]:
+            return True
+        parts = seq(px[0])
+        if len(parts) == 2 and parts[0] == ("many", seq_) and parts[1][0] == "one" and span[1] <= -2:
+            return True
+    if handed_over:
+        # each element was made a node in the iteration before; the element of the first iteration must exist before the loop
+        return True if made_before_loop(first_index) else None
+    # not covered: definite only if every node creation was understood
+    for ne, na in node_events:
+        if _sym_pos(names, na) is None and not (len(names.sources(na)) == 1 and names.sources(na)[0][0] in ("SCANNED", "IMPORTER")):
+            return None
+    if bulk_nodes:
+        return None
+    return False
 
 
 def _recursive_hierarchy(sx: SymX, tr: Trace, names: "_Names", gpm: FuncInfo, graph: Term, config: set[str], node_events, edge_events):
